@@ -62,7 +62,10 @@ type run struct {
 
 // decode maps the output payload back to (fragment, offset) runs.  The payload is read in 8-byte groups
 // from position 0; a group that is not one of ours yields fi = -1.
-func decode(p []byte) []run {
+// sent: the fragments handed in so far (for attributing tails too short to name their offset)
+type sentFrag struct{ key, fi, lo, hi int }
+
+func decode(p []byte, sent []sentFrag) []run {
 	var runs []run
 	for pos := 0; pos < len(p); pos += 8 {
 		n := 8
@@ -94,10 +97,16 @@ func decode(p []byte) []run {
 			runs[k-1].Hi += n
 			continue
 		}
-		if fi < 0 && n < 4 && len(runs) > 0 && runs[len(runs)-1].Fi >= 0 && runs[len(runs)-1].Pos+(runs[len(runs)-1].Hi-runs[len(runs)-1].Lo) == pos {
-			// a tail of fewer than 4 bytes cannot identify itself: it belongs to the run it continues
-			runs[len(runs)-1].Hi += n
-			continue
+		if fi < 0 && n < 4 && n >= 1 && g[0]&0xF0 == 0xF0 {
+			// a tail of fewer than 4 bytes cannot name its offset: attribute it to a fragment that was really
+			// sent for this key, covers these positions and (when the tail has 2+ bytes) has this index
+			key := int(g[0] & 0x0f)
+			for _, sf := range sent {
+				if sf.key&0xf == key && sf.lo <= pos && pos+n <= sf.hi && (n < 2 || sf.fi&0xff == int(g[1])) {
+					fi, off = sf.fi, pos
+					break
+				}
+			}
 		}
 		if fi < 0 {
 			runs = append(runs, run{Fi: -1, Lo: pos, Hi: pos + n, Pos: pos})
@@ -113,6 +122,7 @@ func ts(i int) time.Time { return time.Unix(int64(1000+i), 0) }
 func runV4(tr *vh.Trace, sc int, ops []op, ihl int) {
 	tr.Emit(vh.M{"op": "cfg", "sc": sc, "v": 4, "ihl": ihl})
 	d := ip4defrag.NewIPv4Defragmenter()
+	var sent []sentFrag
 	for i, o := range ops {
 		t := i + 1
 		switch o.kind {
@@ -120,6 +130,7 @@ func runV4(tr *vh.Trace, sc int, ops []op, ihl int) {
 			fi := t
 			n := o.hi - o.lo + o.tail
 			payload := fill(o.key, fi, o.lo, n)
+			sent = append(sent, sentFrag{o.key, fi, o.lo, o.lo + n})
 			in := &layers.IPv4{Version: 4, IHL: uint8(ihl), TOS: 3, Length: uint16(ihl*4 + n), Id: uint16(100 + o.key), TTL: 61,
 				Protocol: layers.IPProtocolUDP, SrcIP: []byte{10, 0, 0, byte(o.key)}, DstIP: []byte{10, 0, 0, 99},
 				FragOffset: uint16(o.lo / 8)}
@@ -150,7 +161,7 @@ func runV4(tr *vh.Trace, sc int, ops []op, ihl int) {
 				ev["res"] = "same"
 			default:
 				ev["res"] = "dgram"
-				ev["runs"] = decode(out.Payload)
+				ev["runs"] = decode(out.Payload, sent)
 				ev["plen"] = len(out.Payload)
 				ev["length"] = int(out.Length)
 				ev["flags"] = int(out.Flags)
@@ -168,6 +179,7 @@ func runV4(tr *vh.Trace, sc int, ops []op, ihl int) {
 func runV6(tr *vh.Trace, sc int, ops []op) {
 	tr.Emit(vh.M{"op": "cfg", "sc": sc, "v": 6, "ihl": 0})
 	d := ip6defrag.NewIPv6Defragmenter()
+	var sent []sentFrag
 	for i, o := range ops {
 		if o.kind != "frag" {
 			continue
@@ -176,6 +188,7 @@ func runV6(tr *vh.Trace, sc int, ops []op) {
 		fi := t
 		n := o.hi - o.lo + o.tail
 		payload := fill(o.key, fi, o.lo, n)
+		sent = append(sent, sentFrag{o.key, fi, o.lo, o.lo + n})
 		ip := &layers.IPv6{Version: 6, HopLimit: 9, NextHeader: layers.IPProtocolIPv6Fragment, SrcIP: make([]byte, 16), DstIP: make([]byte, 16)}
 		fg := &layers.IPv6Fragment{NextHeader: layers.IPProtocolUDP, FragmentOffset: uint16(o.lo / 8), MoreFragments: o.mf, Identification: uint32(7000 + o.key)}
 		fg.Payload = payload
@@ -192,7 +205,7 @@ func runV6(tr *vh.Trace, sc int, ops []op) {
 			ev["res"] = "nil"
 		default:
 			ev["res"] = "dgram"
-			ev["runs"] = decode(out.Payload)
+			ev["runs"] = decode(out.Payload, sent)
 			ev["plen"] = len(out.Payload)
 		}
 		tr.Emit(ev)
